@@ -548,7 +548,7 @@ func TestVerifC28(t *testing.T) {
 	times := []int64{0, 999, 1000, 1001, 1999, 2000, 2001, 3000}
 	fullN, maxN := 2, 2
 	if r.Thorough() {
-		fullN, maxN = 3, 3
+		fullN, maxN = 2, 3
 	}
 	data := c28Datasets(times, fullN, maxN)
 	if r.Quick() {
